@@ -73,6 +73,12 @@ CLAIMED["C20"] = dict(
     note="Stream adapter only (datagram endpoint/listener protocols share the same WriteFlowControl class but are not driven).",
 )
 
+CLAIMED["C03"] = dict(
+    text="Bounded symbolic execution of the real StreamEndpoint (over SocketStreamTransport + fake socket), AsyncStreamEndpoint (over an in-memory transport) and TCPNetworkClient (recv_packet, iter_received_packets): frames with symbolic payloads plus an incomplete tail, the peer closes after a symbolic number of bytes, kernel read sizes symbolic, both receive paths, several max_recv_size. Asserted: packets returned == frames fully contained before the close, in order, once; all delivered before the first end-of-stream; every later call reports end-of-stream again (a transport that blocks after its single EOF makes re-reading visible as a hang); the tail is never delivered.",
+    design="4/C03",
+    technique="symbolic execution of real code (CrossHair+z3): payload bytes, close position, read sizes and would-block pattern as solver variables",
+)
+
 NOT_APPLICABLE = {
     "C08": "TLS byte-transparency/encryption is decided inside OpenSSL's record layer (C code, cryptography): it cannot be executed symbolically by any installed engine; stubbing it would verify the stub, and running real OpenSSL realises every symbolic size (degenerates to concrete enumeration). See DESIGN.md section 5.",
     "C09": "Whether a cut at a byte offset of a real ciphertext stream yields SSLEOFError / SSLZeroReturnError / a protocol error is OpenSSL's partial-record parsing, not encodable; the EasyNetwork part is a three-way exception mapping. See DESIGN.md section 5.",
